@@ -156,6 +156,23 @@ contract(TS + "run_single_timestep.py", "solution_single_time_step",
              ("C06.step_seasonal_irrigation", "implies(NewCond.growing_season, ite(ite(clock_struct.season_counter >= 0, param_struct.IrrMngt.irrigation_method, param_struct.FallowIrrMngt.irrigation_method) == 4, NewCond.irr_net_cum == old(init_cond.irr_net_cum) + written(outputs.water_flux, 0)[1][6], NewCond.irr_cum == old(init_cond.irr_cum) + written(outputs.water_flux, 0)[1][6]))"),
              ("C13.step_irrigation_limits", "implies(NewCond.growing_season and ite(clock_struct.season_counter >= 0, param_struct.IrrMngt.irrigation_method, param_struct.FallowIrrMngt.irrigation_method) != 4, written(outputs.water_flux, 0)[1][6] <= param_struct.IrrMngt.MaxIrr and NewCond.irr_cum <= max(param_struct.IrrMngt.MaxIrrSeason, old(init_cond.irr_cum)))"),
              ("C13.step_rainfed_none", "implies(ite(clock_struct.season_counter >= 0, param_struct.IrrMngt.irrigation_method, param_struct.FallowIrrMngt.irrigation_method) == 0 or not NewCond.growing_season, written(outputs.water_flux, 0)[1][6] == 0)"),
+             # C06: the seasonal summary row is written exactly when the harvest flag is raised (once per season, at index season_counter) and
+             # repeats the daily values of that day
+             ("C06.step_summary_row_iff_harvest", "nwrites(outputs.final_stats) == ite(NewCond.harvest_flag and not old(init_cond.harvest_flag), 1, 0) and "
+                                                  "implies(old(init_cond.harvest_flag), NewCond.harvest_flag) and implies(NewCond.harvest_flag and not old(init_cond.harvest_flag), clock_struct.season_counter >= 0)"),
+             ("C06.step_summary_row_values", "implies(nwrites(outputs.final_stats) == 1, "
+                                             "written(outputs.final_stats, 0)[0] == clock_struct.season_counter and written(outputs.final_stats, 0)[1][0] == clock_struct.season_counter and "
+                                             "written(outputs.final_stats, 0)[1][2] == clock_struct.step_end_time and written(outputs.final_stats, 0)[1][3] == clock_struct.time_step_counter and "
+                                             "written(outputs.final_stats, 0)[1][4] == NewCond.DryYield and written(outputs.final_stats, 0)[1][5] == NewCond.FreshYield and "
+                                             "written(outputs.final_stats, 0)[1][6] == NewCond.YieldPot and "
+                                             "written(outputs.final_stats, 0)[1][4] == written(outputs.crop_growth, 0)[1][12] and written(outputs.final_stats, 0)[1][5] == written(outputs.crop_growth, 0)[1][13] and "
+                                             "written(outputs.final_stats, 0)[1][6] == written(outputs.crop_growth, 0)[1][14] and "
+                                             "written(outputs.final_stats, 0)[1][7] == ite(ite(clock_struct.season_counter >= 0, param_struct.IrrMngt.irrigation_method, param_struct.FallowIrrMngt.irrigation_method) == 4, NewCond.irr_net_cum, NewCond.irr_cum))"),
+             ("C20.step_irrigation_neutral", "implies(NewCond.growing_season and clock_struct.season_counter >= 0 and param_struct.IrrMngt.irrigation_method != 4 and "
+              "(param_struct.IrrMngt.MaxIrr == 0 or (param_struct.IrrMngt.MaxIrrSeason == 0 and old(init_cond.irr_cum) == 0) or "
+              "(param_struct.IrrMngt.irrigation_method == 5 and param_struct.IrrMngt.depth == 0) or "
+              "(param_struct.IrrMngt.irrigation_method == 3 and param_struct.IrrMngt.Schedule[clock_struct.time_step_counter] == 0)), "
+              "written(outputs.water_flux, 0)[1][6] == 0 and NewCond.irr_cum == old(init_cond.irr_cum))"),
              ("C19.step_no_table", "implies(param_struct.water_table == 0, written(outputs.water_flux, 0)[1][10] == 0 and written(outputs.water_flux, 0)[1][11] == 0)"),
              ("C19.step_table_depth", "implies(param_struct.water_table == 1, written(outputs.water_flux, 0)[1][4] == param_struct.z_gw[clock_struct.time_step_counter] and NewCond.z_gw == written(outputs.water_flux, 0)[1][4])"),
              ("C19.step_saturated_below_table", "implies(param_struct.water_table == 1, forall(j, 0, n, implies(param_struct.Soil.Profile.zMid[j] >= NewCond.z_gw, NewCond.th[j] == param_struct.Soil.Profile.th_s[j])))"),
